@@ -223,7 +223,22 @@ fn body_edit(rng: &mut Rng, w: &[u8]) -> (Vec<u8>, &'static str) {
         }
     }
     let (Some((s0, s1)), false) = (code_span, bodies.is_empty()) else { return (w.to_vec(), "none") };
-    let snippets: [&[u8]; 7] = [&[0x41, 0x07, 0x1a], &[0x01], &[0x0b], &[0x41, 0x07], &[0x00], &[0x1a], &[0x01, 0x0b]];
+    // the last three are encodings only the multi-memory / memory64 proposals allow, naming memory 0
+    // with a 32-bit offset all the same: a memarg with flag bit 6 and an explicit memory index, a
+    // `memory.size` whose index is a two-byte LEB, a memarg offset in a six-byte LEB. Valid by
+    // default, malformed under `only_stable_features`.
+    let snippets: [&[u8]; 10] = [
+        &[0x41, 0x07, 0x1a],
+        &[0x01],
+        &[0x0b],
+        &[0x41, 0x07],
+        &[0x00],
+        &[0x1a],
+        &[0x01, 0x0b],
+        &[0x41, 0x00, 0x28, 0x42, 0x00, 0x00, 0x1a],
+        &[0x3f, 0x80, 0x00, 0x1a],
+        &[0x41, 0x00, 0x28, 0x02, 0x80, 0x80, 0x80, 0x80, 0x80, 0x00, 0x1a],
+    ];
     let snip = *rng.pick(&snippets);
     let which = rng.below(bodies.len() as u64) as usize;
     let place = rng.below(3);
